@@ -24,7 +24,7 @@ import pyvc  # noqa: F401
 from pyvc import dump as D
 from pyvc import tables
 from pyvc.absobj import SymFS, SymMapper
-from pyvc.core import DeadPath, Path, PathResult, Undecided, exc_text
+from pyvc.core import DeadPath, Path, PathResult, Undecided, canon_sexpr, exc_text
 from pyvc.harness import explore_parallel
 from pyvc.interp import Interp
 from pyvc.vc import Session
@@ -209,7 +209,7 @@ def path_task(payload, decisions):
         case["decisions"] = final
         from props import analyses as AN0
 
-        case["assumes"] = sorted({z3.simplify(c).sexpr() for _, _, c in getattr(p, "wf_assumptions", [])})
+        case["assumes"] = sorted({canon_sexpr(c) for _, _, c in getattr(p, "wf_assumptions", [])})
         if res.outcome == "return":
             case["spares"] = AN0.spare_areas(res.extra["it"])
         with open(os.path.join(payload["gen_dir"], f"{tag}.json"), "w") as f:
@@ -220,6 +220,12 @@ def path_task(payload, decisions):
 
     sub.decided(f"{prop}/{unit}/within-verified-subset", True, function=fn, kind="safety", backend="engine",
                 detail={"path": tag})
+    # vacuity guard: the facts this path's obligations are proved under must not be contradictory
+    import z3 as _z3
+
+    from pyvc.harness import path_hyps as _ph
+
+    sub.cover(f"{prop}/{unit}/{tag}/path-condition-satisfiable", [h for h in _ph(res.path) if not _z3.is_quantifier(h)], function=fn)
     for a in payload["analyses"]:
         getattr(AN, "an_" + a)(sub, payload, unit, tag, res)
     wf = getattr(p, "wf_assumptions", [])
